@@ -41,6 +41,19 @@ def make_pair(rng, n, noise_rel=None, stamped=False):
     return ref, est, ext, noise
 
 
+def make_toy_pair(rng, n):
+    """whole-number data: the estimate is an integer similarity image (quarter turns, integer
+    factor, integer shift) of an integer reference - aligning it back needs the scale 1/k"""
+    ref = gen.traj_arrays(rng, n, pos_cls="intwalk", rot_cls="quarter_grid", stamp_cls="index")
+    Q = gen.rotations_of_class(rng, 3, "quarter_grid")[-1]
+    k = float(rng.integers(2, 5))
+    shift = rng.integers(-20, 21, size=3).astype(float)
+    est = {"p": np.rint((Q @ ref["p"].T).T * k + shift), "R": np.array([np.rint(Q @ R) for R in ref["R"]]),
+           "t": ref["t"].copy(), "cls": ref["cls"]}
+    ext = float(np.max(np.abs(ref["p"] - ref["p"].mean(axis=0)))) + 1e-3
+    return ref, est, ext, 0.0
+
+
 def rmse(a, b):
     d = a - b
     return math.sqrt(float(np.sum(d * d)) / len(a))
@@ -55,13 +68,22 @@ def k_align(run, case):
     n = case.get("n")
     if n is None:
         n = -1 if rng.random() < .4 else int(rng.integers(3, N + 1))
-    ref, est, ext, noise = make_pair(rng, N)
+    toy = bool(case.get("toy"))
+    ref, est, ext, noise = make_toy_pair(rng, N) if toy else make_pair(rng, N)
     stamped = bool(rng.random() < .5)
     ref_storage = storage if rng.random() < .7 else "se3"
     fl_ref, fl_est = gen.rand_flavour(rng), case.get("flavour") or gen.rand_flavour(rng)
+    if toy:
+        # integer-dtype containers: pose matrices (se3 storage) or position arrays / lists
+        fl_ref, fl_est = ("intmat" if ref_storage == "se3" else "int"), ("intmat" if storage == "se3" else "int")
     t_ref = gen.make_evo(ref, ref_storage, stamped, flavour=fl_ref)
     t_est = gen.make_evo(est, storage, stamped, flavour=fl_est)
-    if case.get("preread") or (rng.random() < .3):
+    if toy:
+        # (the quaternion view of integer-dtype matrices is not read before the operation: the
+        # vendored quaternion_from_matrix refuses non-float64 input under numpy 2)
+        if rng.random() < .5:
+            t_est.positions_xyz, t_est.distances
+    elif case.get("preread") or (rng.random() < .3):
         t_est.positions_xyz, t_est.poses_se3, t_est.orientations_quat_wxyz  # materialise all
     elif rng.random() < .4:
         # partial pre-reads: only some representations cached before the alignment
@@ -77,7 +99,7 @@ def k_align(run, case):
     used = N if n == -1 else n
     x, y = est["p"][:used].T, ref["p"][:used].T
     dig = core.digest(ref["p"], est["p"], est["R"], mode, n, storage)
-    run.seen(case, dig, cls=["align:" + mode, "storage:" + storage,
+    run.seen(case, dig, cls=["align:" + mode, "storage:" + storage] + (["whole-number data in integer containers"] if toy else []) + [
                              "n=-1" if n == -1 else "n<N" if n < N else "n=N",
                              "noise=0" if noise == 0 else "noise>0"],
              sample={"N": N, "mode": mode, "n": n, "storage": storage, "outcome": out[0],
@@ -123,8 +145,13 @@ def k_align(run, case):
                 for k, a in est.items()}
         ref2 = {k: (np.array(a, copy=True) if isinstance(a, np.ndarray) else a)
                 for k, a in ref.items()}
-        est2["p"][used:] += rng.normal(size=(N - used, 3)) * ext * 3
-        ref2["p"][used:] += rng.normal(size=(N - used, 3)) * ext * 3
+        d_est, d_ref = rng.normal(size=(N - used, 3)) * ext * 3, rng.normal(size=(N - used, 3)) * ext * 3
+        if toy:
+            # keep whole numbers, so that the twin is built with the same container dtypes
+            # (bit-identity is only demanded between runs of the same numeric code path)
+            d_est, d_ref = np.rint(d_est) + 1.0, np.rint(d_ref) + 1.0
+        est2["p"][used:] += d_est
+        ref2["p"][used:] += d_ref
         o2 = contracts.outcome_of(gen.make_evo(est2, storage, stamped, flavour=fl_est).align,
                                   gen.make_evo(ref2, ref_storage, stamped, flavour=fl_ref), cs, only, n)
         same = o2[0] == "ok" and core.bits_equal(o2[1][0], r) and core.bits_equal(o2[1][1], t) \
@@ -289,6 +316,8 @@ def main(run):
         k_recorded(run, run.case("recorded", 10**6 + i, **rc[i]))
     for i in run.mine(n):
         k_align(run, run.case("align", i))
+    for i in run.mine(n // 20):
+        k_align(run, run.case("align", 2 * 10**6 + i, toy=True))
     for i in run.mine(n // 4):
         k_origin(run, run.case("origin", i))
     for i in run.mine(n // 4):
